@@ -13,6 +13,13 @@
 //	    b = signing index recovered from key seed+m (must be f).
 //	sconv <keys> <idx> <key>     signing identityConverter: `k=<keys[idx-1]> rt=<roundtrip(idx)> i=<index of key>`
 //	sig <rhex> <shex> <rechex>   tecdsa.NewSignature: `r=<dec> s=<dec> v=<int8>`
+//	srecv <n> <self> <excluded> <seats> <session> <events>
+//	    the real signing state chain (ephemeral, symmetric, tss rounds 1..9, finalization) of member
+//	    <self> of a final group of size n <= 5 (fixture key shares) in an attempt that excludes
+//	    <excluded>, walked with Next(); <events> = comma list of `>` or `kind.sender.operator.session`
+//	    delivered to the current state's Receive (kind 0..9 signing message types, 10 = foreign
+//	    payload; the session id stands for "<message>-<attempt number>").
+//	    `st=<state> can=<CanTransition> n=<history size> r0=… r9=<receivedMessages[T] as sender.seq>`
 //	sign <n> <t> <excluded> <subsets> <msg>   REAL run: DKG of an n-group (honest threshold t) with the
 //	    excluded members, registerSigner's finalSigningGroup, then signing.Execute for each subset
 //	    (`.`-separated lists of FINAL member indexes, `|` between subsets) of message <msg> (decimal).
@@ -28,12 +35,15 @@ import (
 	"strconv"
 	"strings"
 
+	"keepverif/harness/c07/dkgrun"
 	"keepverif/harness/hx"
 
 	tsscommon "github.com/bnb-chain/tss-lib/common"
 	"github.com/bnb-chain/tss-lib/tss"
 	"github.com/keep-network/keep-core/pkg/chain"
+	"github.com/keep-network/keep-core/pkg/net"
 	"github.com/keep-network/keep-core/pkg/protocol/group"
+	"github.com/keep-network/keep-core/pkg/protocol/state"
 	"github.com/keep-network/keep-core/pkg/tbtc"
 	"github.com/keep-network/keep-core/pkg/tecdsa"
 	"github.com/keep-network/keep-core/pkg/tecdsa/dkg"
@@ -171,6 +181,192 @@ func execSig(f []string) (string, string) {
 	return fmt.Sprintf("r=%s s=%s v=%d", s.R, s.S, s.RecoveryID), "sig"
 }
 
+type netMsg struct {
+	payload interface{}
+	key     []byte
+	typ     string
+	seq     uint64
+}
+
+func (m *netMsg) TransportSenderID() net.TransportIdentifier { return nil }
+func (m *netMsg) SenderPublicKey() []byte                    { return m.key }
+func (m *netMsg) Payload() interface{}                       { return m.payload }
+func (m *netMsg) Type() string                               { return m.typ }
+func (m *netMsg) Seqno() uint64                              { return m.seq }
+
+type foreignPayload struct{}
+
+func (p *foreignPayload) Type() string { return "verif/foreign" }
+
+var kindAwaited = map[int]int{0: 0, 2: 1, 3: 2, 4: 3, 5: 4, 6: 5, 7: 6, 8: 7, 9: 8, 10: 9}
+
+func execSrecv(f []string) (string, string) {
+	n, self := hx.Atoi(f[1]), hx.Atoi(f[2])
+	excluded := hx.ParseInts(f[3])
+	seats := hx.ParseInts(f[4])
+	sess := hx.Atoi(f[5])
+	session := func(q int) string { return fmt.Sprintf("abc-%d", q) }
+	var dq []group.MemberIndex
+	for _, e := range excluded {
+		if e != self { // the rule of signing.Execute
+			dq = append(dq, group.MemberIndex(e))
+		}
+	}
+	share := tecdsa.NewPrivateKeyShare(dkgrun.Fixture(self - 1))
+	var st state.AsyncState = signing.VerifC08InitialState(
+		dkgrun.Logger, big.NewInt(100), session(sess), group.MemberIndex(self), share, n, n/2, dq,
+		dkgrun.Validator(seats),
+	)
+	base := signing.VerifC08Base(st)
+	typeOf := func(k int) string { return signing.VerifC08NewMessage(k, 0, "").Type() }
+	idx := 0
+	seqOf := map[interface{}]int{}
+	tags := map[string]bool{}
+	for seq, ev := range hx.SplitList(f[6]) {
+		if ev == ">" {
+			nx, err := st.Next()
+			if err != nil {
+				return "err:next", "srecv+nexterr"
+			}
+			if nx != nil {
+				st = nx
+				idx++
+			}
+			continue
+		}
+		p := strings.Split(ev, ".")
+		kind, sender, op, q := hx.Atoi(p[0]), group.MemberIndex(hx.Atoi(p[1])), hx.Atoi(p[2]), hx.Atoi(p[3])
+		var payload interface{} = &foreignPayload{}
+		typ := "verif/foreign"
+		if kind < signing.VerifC08KindCount {
+			pm := signing.VerifC08NewMessage(kind, sender, session(q))
+			payload, typ = pm, pm.Type()
+		}
+		seqOf[payload] = seq
+		before := len(base.GetAllReceivedMessages(typ))
+		if err := st.Receive(&netMsg{payload: payload, key: dkgrun.OperatorKey(op), typ: typ, seq: uint64(seq)}); err != nil {
+			return "err:receive", "srecv+recverr"
+		}
+		if len(base.GetAllReceivedMessages(typ)) > before {
+			tags["sadmit"] = true
+			if kt, ok := kindAwaited[idx]; !ok || kt != kind {
+				tags["searly"] = true
+			}
+		} else {
+			tags["sreject"] = true
+		}
+	}
+	total := 0
+	var rs []string
+	for k := 0; k < signing.VerifC08KindCount; k++ {
+		total += len(base.GetAllReceivedMessages(typeOf(k)))
+		var parts []string
+		for _, pm := range signing.VerifC08ReceivedMessages(base, k) {
+			parts = append(parts, fmt.Sprintf("%d.%d", pm.(interface{ SenderID() group.MemberIndex }).SenderID(), seqOf[pm]))
+		}
+		rs = append(rs, fmt.Sprintf("r%d=%s", k, hx.JoinStrs(parts)))
+	}
+	total += len(base.GetAllReceivedMessages("verif/foreign"))
+	can := 0
+	if st.CanTransition() {
+		can = 1
+		if idx != 1 && idx != 11 {
+			tags["scan"] = true
+		}
+	}
+	tag := "srecv"
+	var ts []string
+	for t := range tags {
+		ts = append(ts, t)
+	}
+	sort.Strings(ts)
+	for _, t := range ts {
+		tag += "+" + t
+	}
+	return fmt.Sprintf("st=%d can=%d n=%d %s", idx, can, total, strings.Join(rs, " ")), tag
+}
+
+func genSrecv(r *hx.Rng) string {
+	n := r.Range(2, 5)
+	self := r.Range(1, n)
+	var excl []int
+	for m := 1; m <= n; m++ {
+		if r.Chance(1, 4) {
+			excl = append(excl, m)
+		}
+	}
+	isEx := map[int]bool{}
+	for _, e := range excl {
+		isEx[e] = true
+	}
+	seats := make([]int, n)
+	ops := r.Range(1, n)
+	for i := range seats {
+		seats[i] = 1 + r.Intn(ops)
+	}
+	if r.Chance(2, 3) {
+		for i := range seats {
+			seats[i] = i + 1
+		}
+	}
+	sess := r.Intn(3)
+	var evs []string
+	if r.Bool() { // complete traffic of every phase
+		for kind := 0; kind < 10; kind++ {
+			for m := 1; m <= n; m++ {
+				if m == self || (isEx[m] && !r.Chance(1, 3)) {
+					continue
+				}
+				evs = append(evs, fmt.Sprintf("%d.%d.%d.%d", kind, m, seats[m-1], sess))
+				if r.Chance(1, 6) {
+					evs = append(evs, fmt.Sprintf("%d.%d.%d.%d", kind, m, seats[m-1], sess))
+				}
+			}
+		}
+		if r.Bool() {
+			p := r.Perm(len(evs))
+			q := make([]string, len(evs))
+			for i, j := range p {
+				q[i] = evs[j]
+			}
+			evs = q
+		}
+	}
+	for k := r.Range(0, 25); k > 0; k-- {
+		kind := r.Intn(10)
+		if r.Chance(1, 12) {
+			kind = 10
+		}
+		sender := r.Range(1, n)
+		op := seats[sender-1]
+		q := sess
+		switch r.Intn(12) {
+		case 0, 1: // another message / another attempt of the same message
+			q = (sess + 1 + r.Intn(2)) % 3
+		case 2:
+			op = r.Intn(n + 2)
+		case 3:
+			sender = self
+			op = seats[self-1]
+		case 4:
+			if len(excl) > 0 {
+				sender = hx.Pick(r, excl)
+				op = seats[sender-1]
+			}
+		case 5: // outside the final group
+			sender = hx.Pick(r, []int{0, n + 1, 255})
+		}
+		ev := fmt.Sprintf("%d.%d.%d.%d", kind, sender, op, q)
+		at := r.Intn(len(evs) + 1)
+		evs = append(evs[:at], append([]string{ev}, evs[at:]...)...)
+	}
+	for k := r.Range(0, 12); k > 0; k-- {
+		at := r.Intn(len(evs) + 1)
+		evs = append(evs[:at], append([]string{">"}, evs[at:]...)...)
+	}
+	return fmt.Sprintf("srecv %d %d %s %s %d %s", n, self, hx.JoinInts(excl), hx.JoinInts(seats), sess, hx.JoinStrs(evs))
+}
+
 func exec(op string) (string, string) {
 	f := strings.Fields(op)
 	switch {
@@ -180,6 +376,8 @@ func exec(op string) (string, string) {
 		return execSconv(f)
 	case len(f) == 4 && f[0] == "sig":
 		return execSig(f)
+	case len(f) == 7 && f[0] == "srecv":
+		return execSrecv(f)
 	case len(f) == 6 && f[0] == "sign":
 		return execSign(f)
 	}
@@ -315,7 +513,9 @@ func gen(r *hx.Rng, n int, tier string) []string {
 		}
 	}
 	for i := 0; i < n; i++ {
-		switch r.Intn(10) {
+		switch r.Intn(14) {
+		case 10, 11, 12, 13:
+			ops = append(ops, genSrecv(r))
 		case 0, 1, 2, 3:
 			size := r.Range(1, 12)
 			if r.Chance(1, 8) {
